@@ -130,11 +130,31 @@ func checkC15(c *Ctx, r *Report) {
 	// own broker connection: the dial result lives in a local of the session function
 	if run := c.sessionFunc(); run != nil {
 		okd := false
-		allInstrs(run, func(i ssa.Instruction) {
-			if ci, ok := i.(ssa.CallInstruction); ok && strings.HasSuffix(calleeName(ci.Common()), ".DialContext") {
-				okd = true
+		seenD := map[*ssa.Function]bool{}
+		var scanDial func(f *ssa.Function, d int)
+		scanDial = func(f *ssa.Function, d int) {
+			if seenD[f] || d > 3 || f.Blocks == nil {
+				return
 			}
-		})
+			seenD[f] = true
+			allInstrs(f, func(i ssa.Instruction) {
+				ci, ok := i.(ssa.CallInstruction)
+				if !ok {
+					return
+				}
+				if strings.HasSuffix(calleeName(ci.Common()), ".DialContext") {
+					okd = true
+				}
+				// a helper of the same package called synchronously by the session function (not a goroutine)
+				if _, isGo := i.(*ssa.Go); isGo {
+					return
+				}
+				if g := staticCallee(ci.Common()); g != nil && fnPkgPath(g) == pkGateway {
+					scanDial(g, d+1)
+				}
+			})
+		}
+		scanDial(run, 0)
 		r.cond(okd, "R1", fnKey(run)+":own-broker-connection", c.pos(run.Pos()), "the session function dials its own broker connection", "the session function does not dial a broker connection of its own")
 	}
 	// R2: shared data never written
